@@ -698,8 +698,15 @@ class FT:
         # allocation sites: does the result of operator new get bitcast to a typed pointer?
         alltext = '\n'.join(s_ for _, ins_ in blocks for s_ in ins_)
         self.alloc_typed = set()
-        for m_ in re.finditer(r'bitcast i8\* (%[-a-zA-Z$._0-9]+) to (?!i8\*)', alltext):
+        self.alloc_types = {}
+        for m_ in re.finditer(r'bitcast i8\* (%[-a-zA-Z$._0-9]+) to (?!i8\*)([^\n]*)', alltext):
             self.alloc_typed.add(m_.group(1))
+            try:
+                tk_ = Toks(tokenize(m_.group(2)))
+                t_ = parse_type(tk_)
+                if isinstance(t_, TPtr): self.alloc_types.setdefault(m_.group(1), t_.to)
+            except Exception:
+                pass
         # the entry block label in preds: clang names it %N where N = number of params (if unnamed)
         entry_pred = '%' + str(len(f.params))
         body = []
@@ -978,6 +985,22 @@ class FT:
             d = self.define(dest, ret)
             USED_SHIMS.add(callee_name)
             return ['%s(%s, (P)&%s);' % (ABI_OUT[callee_name], ', '.join(a for _, a in args), d)]
+        if callee_name == '@_Znwm' and dest and self.alloc_types.get(dest) is not None and TYPED_NEW:
+            mm = re.fullmatch(r'\(\(uint64_t\)(\d+)ULL\)', args[0][1])
+            et = self.alloc_types[dest]
+            try:
+                es, _ = size_align(et)
+            except Exception:
+                es = 0
+            if mm and es and int(mm.group(1)) % es == 0 and int(mm.group(1)) <= (1 << 16) and isinstance(et, (TStruct,)):
+                # operator new of a class object / an array of structs: a TYPED static object per allocation site (must
+                # execute at most once): cbmc keeps a field-level view, integers stored in it fold (the pointer-typed
+                # pool makes every non-pointer field a type-punned access)
+                FT.nheap = getattr(FT, 'nheap', 0) + 1
+                k = FT.nheap
+                d = self.define(dest, ret)
+                n_ = int(mm.group(1)) // es
+                return ['{ extern uint32_t verif_rt_section; static %s heapobj__%d[%d]; static int heap_used__%d; __CPROVER_assert(!verif_rt_section, "C03 heap allocation (operator new) inside the realtime section"); __CPROVER_assert(!heap_used__%d, "verif: typed allocation site executed more than once"); heap_used__%d = 1; %s = (P)heapobj__%d; }' % (ctype(et), k, n_, k, k, k, d, k)]
         if callee_name in ('@_Znam', '@_Znwm') and dest and dest not in self.alloc_typed:
             mm = re.fullmatch(r'\(\(uint64_t\)(\d+)ULL\)', args[0][1])
             if mm and int(mm.group(1)) <= (1 << 20):
@@ -987,6 +1010,11 @@ class FT:
                 k = FT.nheap
                 d = self.define(dest, ret)
                 return ['{ extern uint32_t verif_rt_section; static char heap__%d[%s]; static int heap_used__%d; __CPROVER_assert(!verif_rt_section, "C03 heap allocation (operator new[]) inside the realtime section"); __CPROVER_assert(!heap_used__%d, "verif: byte allocation site executed more than once"); heap_used__%d = 1; %s = (P)heap__%d; }' % (k, mm.group(1), k, k, k, d, k)]
+            if not mm:
+                # run-time size, raw bytes: a typed char chunk from a small pool (stubs/cxxrt.c: ll_byte_alloc, 64-byte chunks)
+                d = self.define(dest, ret)
+                NEED_BYTE_ALLOC.add(1)
+                return ['%s = ll_byte_alloc(%s);' % (d, args[0][1])]
         if callee_name:
             callee_name = M.aliases.get(callee_name, callee_name)
             USED_FUNCS.setdefault(callee_name, (ret, [a for a, _ in args], fnty))
@@ -1085,6 +1113,8 @@ class FT:
 
 USED_FUNCS = {}
 STRS = {}
+NEED_BYTE_ALLOC = set()
+TYPED_NEW = False   # --typed-new: operator new of class objects becomes a typed static object per site
 ONCE_FUNCS = {'@harness'}
 RESUMABLE = set()   # C names of void(void) functions emitted as resumable step functions (own sequentialisation)
 ABI_OUT = {'@rtosc_argument': 'll_rtosc_argument', '@rtosc_itr_next': 'll_rtosc_itr_next'}
@@ -1174,6 +1204,10 @@ def fn_proto(name, ret, params, vararg):
 
 def main():
     args = sys.argv[1:]
+    global TYPED_NEW
+    if '--typed-new' in args:
+        TYPED_NEW = True
+        args.remove('--typed-new')
     if '--resumable' in args:
         i_ = args.index('--resumable')
         RESUMABLE.update(args[i_ + 1].split(','))
@@ -1199,6 +1233,7 @@ def main():
             protos.append('extern void %s(%s, P);' % (ABI_OUT[name], ps)); declared.add(ABI_OUT[name])
             continue
         protos.append('extern %s %s(%s);' % (ctype(ft.ret), cn, ps or 'void')); declared.add(cn)
+    if NEED_BYTE_ALLOC: protos.append('extern P ll_byte_alloc(uint64_t);')
     for cn, pr in (('memcpy', 'extern void *memcpy(void*, const void*, size_t);'), ('memmove', 'extern void *memmove(void*, const void*, size_t);'),
                    ('memset', 'extern void *memset(void*, int, size_t);')):
         if cn not in declared: protos.append(pr)
